@@ -176,6 +176,20 @@ def divisor_zero_everywhere(h, envs):
     return False
 
 
+def power_bomb(h):
+    """A reference-free power whose value is astronomically large (1234567890123456789 ** 1e18, 10 ** (10 ** 10)):
+    hpl's constant folding would compute it with Python big integers and not come back.  Such inputs contain an
+    undefined constant sub-expression in the modelled semantics and are not handed to the rewriting functions."""
+    if getattr(h, 'is_predicate', False):
+        h = h.condition
+    for x in E._walk(h):
+        if type(x).__name__ == 'HplBinaryOperator' and x.operator.token == '**' and E.is_reference_free(x):
+            st, v = E.run(E.compile_expr(x, True), E.Env())
+            if st != 'ok' and ('too large' in str(v) or 'overflow' in str(v).lower() or 'recursion' in str(v)):
+                return True
+    return False
+
+
 def undefined_everywhere(h, envs):
     """Under some admissible reading the expression evaluates without error on no environment of
     the grid: it has no defined value to preserve, so a raise while rewriting it is not judged."""
